@@ -215,4 +215,25 @@ META = {
         "technique": "differential two-run monitor (planted corpus vs empty directory), file-corpus mutation, log-line conservation",
         "max_inconclusive": 0.1,
     },
+    "C16": {
+        "level": "fault_enumeration",
+        "evaluations": ["crash_runs"],
+        "required": ["scenarios_traced", "crash_runs", "killed_at:write", "killed_at:openat", "killed_at:renameat", "killed_at:mkdirat", "killed_at:close",
+                     "later_run_replayed", "later_run_found_nothing"],
+        "show": ["scenarios_traced", "save_syscalls", "crash_runs", "later_run_replayed", "later_run_found_nothing", "crash_point_not_reached"],
+        "rule": "a child process (main goroutine locked to the main thread) runs a real failing Check with fail files on in an empty directory under "
+                "strace; the reference trace lists every file-system-affecting system call of the main thread between two marker calls (mkdirat, openat, "
+                "each write, close, renameat, unlinkat); for EVERY such (syscall, j-th occurrence) the child is re-run with strace -e inject=<sc>:signal=KILL:"
+                "when=<j>, i.e. killed on entry to that call; oracle: every file matching the discovery pattern parses and equals the uninterrupted save "
+                "modulo timestamps, a later in-process Check replays it or finds nothing and never logs 'ignoring fail file'; trace oracle: the final "
+                "name is never opened for writing, only reached by rename of a closed temp file; scenarios: 0/1/3/40 output lines (one write each), "
+                "0..3000+ words, names needing sanitisation; non-trivial+distinct = distinct (scenario, syscall, occurrence) crash points at which the kill landed",
+        "assumptions": COMMON_ASSUME + ["process death only (SIGKILL on syscall entry): the page cache survives; power loss is not covered",
+                                        "strace 6.1 fault injection counts calls per thread; the evidence records the call at which each kill landed"],
+        "level_text": "Exhaustive enumeration of crash points at system-call granularity for each scenario (strictly finer than failpoints), with a "
+                      "directory-state and trace oracle; the set of scenarios is sampled.",
+        "technique": "strace fault injection (SIGKILL on entry to the j-th syscall) enumerating every crash point of a save; directory + syscall-trace oracle",
+        "shards": 8,
+        "max_inconclusive": 0.05,
+    },
 }
